@@ -107,7 +107,8 @@ OkPacket(f, p) == IF f = IPF THEN IsIp(p[1])
                   ELSE TRUE
 Packets == { [f |-> IF f = IPF THEN p[1] ELSE f, p |-> p] : <<f, p>> \in { fp \in Frames \X Payloads : OkPacket(fp[1], fp[2]) } }
 PktSeqs == UNION { [1..k -> Packets] : k \in 1..MaxPkts }
-CutSets(n) == { c \in SUBSET (1..(n - 1)) : Cardinality(c) <= MaxCuts }
+\* built by size (MaxCuts <= 2): filtering SUBSET (1..(n-1)) enumerates 2^(n-1) sets for every wire
+CutSets(n) == {{}} \cup (IF MaxCuts >= 1 THEN {{i} : i \in 1..(n - 1)} ELSE {}) \cup (IF MaxCuts >= 2 THEN {{i, j} : i, j \in 1..(n - 1)} ELSE {})
 
 VARIABLES sent, cuts, delivered, done
 vars == <<sent, cuts, delivered, done>>
